@@ -22,6 +22,7 @@ type Tape struct {
 	Nondet  []uint64 `json:"nondet"`
 	Chooses []int64  `json:"chooses"`
 	Expect  string   `json:"expect"`
+	Sched   bool     `json:"sched"`
 
 	obs     []ObsVal
 	failure *Failure
@@ -209,6 +210,9 @@ func compareWitness(tp *Tape, r *NativeResult) string {
 	}
 	if r.Unused != 0 {
 		return fmt.Sprintf("native run left %d tape entries unused", r.Unused)
+	}
+	if tp.Sched {
+		return "" // scheduling choices cannot be forced natively: observations are not compared
 	}
 	if len(r.Observes) != len(tp.obs) {
 		return fmt.Sprintf("observe count differs: engine %d native %d", len(tp.obs), len(r.Observes))
